@@ -132,17 +132,16 @@ def kvLine : List String → String
           | .ok none => "none"
           | .ok (some (st, loc)) => s!"{st} {toHex loc}"
           | .error _ => "err")
-  | ["rw", ridx, rules, target, cond, scheme, auth, port, opts, table] => orBad do
+  | ["rw", ridx, rules, target, cond, scheme, auth, srvname, port, opts, table] => orBad do
     let ridx ← ridx.toNat?
     let ts ← parseRules rules
     let t ← ofHex target
     let cd ← parseCond cond
-    let sc ← hexOpt scheme
+    let sc ← ofHex scheme
     let au0 ← hexOpt auth
-    -- r->uri.authority is the lower-cased Host; if blank, ${url.authority} is r->server_name
-    let au : Option Bytes := some (match au0 with
-      | some a => if a.isEmpty then ofString "server.name" else a.map toLower
-      | none => ofString "server.name")
+    -- r->uri.authority is the lower-cased Host ("~": no Host header, blank authority)
+    let au : Bytes := (au0.getD []).map toLower
+    let sn ← ofHex srvname
     let po ← port.toNat?
     let o ← opts.toNat?
     let tbl ← parseTable table
@@ -152,15 +151,14 @@ def kvLine : List String → String
     match parseTarget ⟨o⟩ false t with
     | .error e => pure s!"status {e} 0"
     | .ok tg =>
-      let r := rwRun matcher ts ridx cd ⟨o⟩ sc au po 200 tg.target none 0
+      let r := rwRun matcher ts ridx cd ⟨o⟩ sc au sn po 200 tg.target none 0
       -- detect trace misses: every target reached must be in the table
       let rec reach (fuel : Nat) (tg : Bytes) (h : Option RwState) : Bool :=
         match fuel with
         | 0 => true
         | fuel + 1 =>
           if (tbl.find? (·.1 == tg)).isNone && !ts.isEmpty then false else
-          let url : UrlParts := { scheme := sc, authority := au, port := po, path := tg,
-                                  query := targetQuery tg }
+          let url : UrlParts := requestUrl sc au sn po tg
           match rwCall ridx cd url (ts.zip (matcher tg)) h with
           | (.comeback t', h') =>
             (match parseTarget ⟨o⟩ false t' with
@@ -168,7 +166,7 @@ def kvLine : List String → String
              | .error _ => true)
           | _ => true
       if reach 200 tg.target none then pure (showFinal r) else pure "trace-miss"
-  | ["nf", kind, handler, ridx, rules, target, cond, scheme, auth, port, trace] => orBad do
+  | ["nf", kind, handler, ridx, rules, target, cond, scheme, auth, srvname, port, trace] => orBad do
     -- filesystem assumption: stat() follows symbolic links; a trailing '/' on a non-directory and a
     -- path below a regular file fail (ENOTDIR)
     let k : FsKind ←
@@ -182,19 +180,17 @@ def kvLine : List String → String
     let ts ← parseRules rules
     let t ← ofHex target
     let cd ← parseCond cond
-    let sc ← hexOpt scheme
+    let sc ← ofHex scheme
     let au0 ← hexOpt auth
-    let au : Option Bytes := some (match au0 with
-      | some a => if a.isEmpty then ofString "server.name" else a.map toLower
-      | none => ofString "server.name")
+    let au : Bytes := (au0.getD []).map toLower
+    let sn ← ofHex srvname
     let po ← port.toNat?
     let tr ← parseTrace trace
     match parseTarget ⟨0⟩ false t with
     | .error e => pure s!"status {e}"
     | .ok tg =>
       if tr.length ≠ ts.length then none
-      let url : UrlParts := { scheme := sc, authority := au, port := po, path := tg.target,
-                              query := targetQuery tg.target }
+      let url : UrlParts := requestUrl sc au sn po tg.target
       pure (match (rwPhysical (handler == "1") k ridx cd url (ts.zip tr) none).1 with
             | .goOn => "go"
             | .comeback t' => s!"comeback {toHex t'}"
